@@ -30,8 +30,9 @@ AlgoDivs(x, y) == IF x >= 0 THEN (IF y >= 0 THEN x \div y ELSE -(x \div (-y)))
 AlgoMods(x, y) == IF x >= 0 THEN (IF y >= 0 THEN x % y ELSE x % (-y))
                   ELSE (IF y >= 0 THEN -((-x) % y) ELSE -((-x) % (-y)))
 AlgoDivp(x, y) == IF x >= 0 THEN (IF y >= 0 THEN x \div y ELSE -(x \div (-y)))
-                  ELSE (IF y >= 0 THEN -((y - 1 - x) \div y) ELSE ((-y - 1 - x) \div (-y)))
-AlgoModp(x, y) == x - y * AlgoDivp(x, y)
+                  ELSE (IF y >= 0 THEN -1 - ((-1 - x) \div y) ELSE 1 + ((-1 - x) \div (-y)))
+AlgoModp(x, y) == IF x >= 0 THEN (IF y >= 0 THEN x % y ELSE x % (-y))
+                  ELSE (IF y >= 0 THEN y - 1 - ((-1 - x) % y) ELSE -y - 1 - ((-1 - x) % (-y)))
 
 \* ---- roots ---------------------------------------------------------------------------
 \* polynomial with coefficients c (highest degree first) evaluated at a dyadic x (Horner, exact)
